@@ -1027,6 +1027,59 @@ def ck11(p, res):
     return n
 
 
+def ck14(p, res):
+    """never panics on a constant finer than the ciphertext: a limb accessor `X.at_mut(c, i)` whose index is the counter of `enumerate()` over another container (the digits of
+    an encoded constant) is bounded by the object - the iterator chain contains `take(..)` / `zip(..)`, or the index is compared with `size()` on a dominating branch"""
+    IT = ("into_iter", "iter", "iter_mut", "by_ref", "deref", "deref_mut", "borrow", "borrow_mut", "as_ref", "as_mut")
+    n = 0
+    for f in sorted(p.fns.values(), key=lambda x: x.uid):
+        if not f.blocks or not f.uid.startswith("poulpy_ckks::") or f.is_test():
+            continue
+        flow = chain = g = None
+        for bi, t in f.calls():
+            nm = (f.callee_def(t) or {}).get("n")
+            if nm not in ("at", "at_mut") or len(t["a"]) != 3:
+                continue
+            if flow is None:
+                flow = Flow(f)
+                chain = Flow(f, transparent=IT)
+                g = CFG(f)
+            for r in flow.op_roots(t["a"][2]):
+                if not (r[0] == "call" and (f.callee_def(f.blocks[r[1]]["t"]) or {}).get("n") == "next" and r[2][:2] == ("0", "0")):
+                    continue
+                names = set()
+                stack = [f.blocks[r[1]]["t"]["a"][0]]
+                seen = set()
+                while stack:
+                    o = stack.pop()
+                    for q in chain.op_roots(o):
+                        if q[0] == "call" and q[1] not in seen:
+                            seen.add(q[1])
+                            t2 = f.blocks[q[1]]["t"]
+                            names.add((f.callee_def(t2) or {}).get("n"))
+                            stack += list(t2["a"])
+                if "enumerate" not in names:
+                    continue
+                n += 1
+                bounded = bool(names & {"take", "zip", "take_while"})
+                if not bounded:
+                    # index compared with something on a dominating two-way switch
+                    for b in g.reach:
+                        tt = f.blocks[b]["t"]
+                        if tt and tt["k"] == "Switch" and g.dominates(b, bi) and b != bi:
+                            for q in flow.op_roots(tt["o"]):
+                                if q[0] == "bin" and f.blocks[q[1]]["s"][q[2]][2].get("op") in ("Lt", "Le", "Gt", "Ge"):
+                                    if any(x[0] == "call" and x[1] == r[1] for o in f.blocks[q[1]]["s"][q[2]][2]["o"] for x in flow.op_roots(o)):
+                                        bounded = True
+                if bounded:
+                    res.ok("CK-14", {"fn": f.pretty})
+                else:
+                    res.bad("CK-14", f.pretty, "enumerate-indexed-limb:%s" % "+".join(sorted(x for x in names if x and x not in ("enumerate", "next"))),
+                            "%s addresses limb `i` of its destination with the counter of an `enumerate()` over another container and nothing bounds that iteration by the destination's "
+                            "limb count: a constant encoded with more digits than the ciphertext has limbs panics in the accessor" % f.pretty, site=f.where(t["l"]))
+    return n
+
+
 def ck13(p, res):
     """never panics on a plaintext of another radix: an operation of poulpy-ckks that hands the limbs of a znx plaintext parameter (`pt`, `pt_znx`) to a core / HAL operation
     together with a ciphertext is dominated, in the same function, by `ensure_base2k_match` (which returns PlaintextBase2KMismatch); the core operations assert equal radices"""
@@ -1064,6 +1117,7 @@ def run(res, tier):
                        "same values, key lookups and checked arithmetic never unwrapped, destination metadata defined on every success return of out-of-place operations (interprocedural "
                        "summary), and equality fast paths consistent with the ordering branches that follow them. Slot values, error magnitudes and the numeric invariant "
                        "log_delta + log_budget <= max_k are not decided.")
+    res.rule("CK-14", "a limb accessor indexed by the counter of enumerate() over another container is bounded by take / zip / a comparison")
     res.rule("CK-13", "a core / HAL operation that receives a znx plaintext parameter of a CKKS operation is dominated by ensure_base2k_match")
     res.rule("CK-12", "value-preserving operations store a log_delta that does not exceed the log_delta of any operand they read (in-place forms: of dst itself too)")
     res.rule("CK-1", "stores to CKKS `meta` and from_inner(..) occur only in poulpy_ckks::{leveled::default, layouts, leveled::delegates::{composite,encryption}, encoding}")
@@ -1104,6 +1158,8 @@ def run(res, tier):
         res.floor("CK-9", "ct x pt offset derivations", n9p, 2)
         n10 = ck10(p, res)
         res.floor("CK-10", "plaintext alignment queries", n10, 4)
+        n14 = ck14(p, res)
+        res.floor("CK-14", "enumerate-indexed limb accessors", n14, 4)
         n13 = ck13(p, res)
         res.floor("CK-13", "core calls receiving a znx plaintext", n13, 4)
         n11 = ck11(p, res)
